@@ -95,10 +95,11 @@ func richXML(seed uint64, idx int) string {
 			t.Retries = 1 + rng.Intn(3)
 		}
 		if rng.Bool() {
-			t.Props = []gen.PropItem{{Name: "p", Value: "1", Type: "integer"}, {Name: "q", Ref: "$v.a"}, {Name: "s with <&>", Value: "x \"y\""}}
+			t.Props = []gen.PropItem{{Name: "p", Value: "1", Type: "integer"}, {Name: "q", Ref: "$v.a"}, {Name: "s with <&>", Value: "x \"y\""},
+				{Name: "both", Value: "fallback", Type: "string", Ref: "$order.tenant"}, {Name: "typed-ref", Type: "object", Ref: "$v"}, {Name: "zero", Value: "0", Type: "float"}}
 		}
 		if rng.Bool() {
-			t.Headers = []gen.PropItem{{Name: "h", Value: "v"}}
+			t.Headers = []gen.PropItem{{Name: "h", Value: "v"}, {Name: "hboth", Value: "fallback", Ref: "$order.tenant"}, {Name: "href", Ref: "$v.a"}, {Name: "hbool", Value: "true", Type: "boolean"}}
 		}
 		if rng.Bool() {
 			t.Outputs = []string{"do1"}
